@@ -1112,6 +1112,7 @@ fn main() {
         Some("c04seq") => cmd_c04seq(&args, &out),
         Some("c05") => cmd_c05(&args, &out),
         Some("c06") => cmd_c06(&args, &out),
+        Some("noop") => {}
         other => {
             eprintln!("unknown subcommand {other:?}");
             std::process::exit(64);
